@@ -1,12 +1,24 @@
 // @append src/frame.rs
 // C19 (pan law) and C04 (Hermite interpolation end points).
 
+include!(concat!(env!("KV_HARNESS_DIR"), "/lib/libm.rs"));
+
+// sqrt spy: records the two arguments Frame::panned takes the root of
+static mut KV_SQ_ARGS: [f32; 2] = [0.0; 2];
+static mut KV_SQ_N: usize = 0;
+fn kv_sqrt32_spy(x: f32) -> f32 {
+	unsafe { if KV_SQ_N < 2 { KV_SQ_ARGS[KV_SQ_N] = x; } KV_SQ_N += 1; }
+	kv_sqrt32(x)
+}
+
 // @h prop=C19 tier=quick kind=main
-// @bounds every f32 bit pattern of the panning value; every non-NaN frame
+// @bounds every f32 bit pattern of the panning value (incl. NaN, +-inf, -0.0); every finite frame
 // @funcs Frame::panned
-// @catches centre shortcut removed/altered; clamp dropped; hard-left/right leaking into the other channel; pan constant changed
+// @assume f32::sqrt replaced by a recording contract stub (sqrt(0)=0, sqrt(1)=1, monotone, in [x,1) for x<1)
+// @catches centre shortcut removed/altered; clamp (either bound) dropped; roots taken of anything but (1-m, m) with m=(clamp(p,-1,1)+1)/2; NaN from an out-of-range panning
 #[kani::proof]
 #[kani::unwind(2)]
+#[kani::stub(f32::sqrt, kv_sqrt32_spy)]
 fn c19_panned_all_f32() {
 	let l: f32 = kani::any();
 	let r: f32 = kani::any();
@@ -14,56 +26,80 @@ fn c19_panned_all_f32() {
 	kani::assume(l.is_finite() && r.is_finite());
 	let f = Frame::new(l, r);
 	let o = f.panned(Panning(p));
+	if cfg!(kv_native) {
+		// native replay oracle (real sqrt)
+		if p == 0.0 { assert!(o.left.to_bits() == l.to_bits() && o.right.to_bits() == r.to_bits()); }
+		else if !p.is_nan() {
+			let m = (p.clamp(-1.0, 1.0) + 1.0) * 0.5;
+			let want = Frame::new(l * (1.0 - m).sqrt(), r * m.sqrt()) * std::f32::consts::SQRT_2;
+			assert!(o.left.to_bits() == want.left.to_bits() && o.right.to_bits() == want.right.to_bits(), "native: equal-power pan law");
+			assert!(!o.left.is_nan() && !o.right.is_nan());
+		}
+		return;
+	}
 	if p == 0.0 {
 		assert!(o.left.to_bits() == l.to_bits() && o.right.to_bits() == r.to_bits(), "centre keeps the frame bit-exactly");
-	}
-	if p <= -1.0 {
-		assert!(o.left == l * 1.0f32 * std::f32::consts::SQRT_2 && o.right == 0.0, "hard left");
-		let h = f.panned(Panning(-1.0));
-		assert!(o.left.to_bits() == h.left.to_bits() && o.right.to_bits() == h.right.to_bits(), "clamped below -1");
-	}
-	if p >= 1.0 {
-		assert!(o.right == r * 1.0f32 * std::f32::consts::SQRT_2 && o.left == 0.0, "hard right");
-		let h = f.panned(Panning(1.0));
-		assert!(o.left.to_bits() == h.left.to_bits() && o.right.to_bits() == h.right.to_bits(), "clamped above 1");
-	}
-	if !p.is_nan() {
+		assert!(unsafe { KV_SQ_N } == 0);
+	} else if !p.is_nan() {
+		let m = (p.clamp(-1.0, 1.0) + 1.0) * 0.5;
+		assert!(m >= 0.0 && m <= 1.0);
+		unsafe {
+			assert!(KV_SQ_N == 2, "two roots: left and right gain");
+			assert!(KV_SQ_ARGS[0].to_bits() == (1.0 - m).to_bits() && KV_SQ_ARGS[1].to_bits() == m.to_bits(),
+				"equal-power law: gains are sqrt(1-m) and sqrt(m), m = (clamp(p,-1,1)+1)/2");
+		}
 		assert!(!o.left.is_nan() && !o.right.is_nan(), "finite frame, non-NaN panning: no NaN");
 	}
+	if p <= -1.0 { assert!(o.right == 0.0, "hard left (and anything beyond, clamped): nothing on the right"); }
+	if p >= 1.0 { assert!(o.left == 0.0, "hard right (and anything beyond, clamped): nothing on the left"); }
 	kani::cover!(p < -1.0, "w:below-range");
 	kani::cover!(p > 0.0 && p < 1.0, "w:partial-right");
 	kani::cover!(p.is_nan(), "w:nan-no-panic");
 }
 
 // @h prop=C19 tier=quick kind=main
-// @bounds every non-NaN f32 panning; centred unit signal (1,1)
+// @bounds unit frame (1,1), every non-NaN f32 panning, real (bit-precise) f32 sqrt of CBMC
 // @funcs Frame::panned
-// @catches linear pan law instead of equal-power; missing sqrt(2) normalisation
+// @catches missing sqrt(2) normalisation at the ends; gains outside [0, sqrt 2]; hard-left/right levels
 #[kani::proof]
 #[kani::unwind(2)]
-fn c19_panned_keeps_total_power() {
+fn c19_panned_unit_gains() {
 	let p: f32 = kani::any();
 	kani::assume(!p.is_nan());
 	let o = Frame::new(1.0, 1.0).panned(Panning(p));
-	let power = o.left * o.left + o.right * o.right;
-	assert!(power >= 2.0 - 1.0e-5 && power <= 2.0 + 1.0e-5, "L^2 + R^2 of a centred unit signal stays 2");
 	assert!(o.left >= 0.0 && o.right >= 0.0 && o.left <= 1.4142137 && o.right <= 1.4142137);
+	if p <= -1.0 { assert!(o.left == std::f32::consts::SQRT_2 && o.right == 0.0, "hard left: (sqrt 2, 0)"); }
+	if p >= 1.0 { assert!(o.right == std::f32::consts::SQRT_2 && o.left == 0.0, "hard right: (0, sqrt 2)"); }
+	if p == 0.0 { assert!(o.left == 1.0 && o.right == 1.0, "centre keeps the level"); }
 	kani::cover!(p > 0.25 && p < 0.75, "w:mid-right");
 }
 
 // @h prop=C19 tier=quick kind=main
-// @bounds non-NaN pannings p1 <= p2; unit signal: right gain non-decreasing, left gain non-increasing
+// @bounds every pair of non-NaN, non-centre pannings p1 <= p2: the argument of the right-gain root never decreases, that of the left-gain root never increases
 // @funcs Frame::panned
+// @assume f32::sqrt replaced by the recording contract stub; monotonicity of the gains then follows from sqrt and x*sqrt(2) being monotone (not re-proved by the solver: multiplier monotonicity does not finish)
+// @catches left/right swapped; a pan law that is not monotone in the panning value
 #[kani::proof]
 #[kani::unwind(2)]
+#[kani::stub(f32::sqrt, kv_sqrt32_spy)]
 fn c19_panned_monotone() {
 	let p1: f32 = kani::any();
 	let p2: f32 = kani::any();
 	kani::assume(!p1.is_nan() && !p2.is_nan() && p1 <= p2);
 	kani::assume(p1 != 0.0 && p2 != 0.0);
-	let a = Frame::new(1.0, 1.0).panned(Panning(p1));
-	let b = Frame::new(1.0, 1.0).panned(Panning(p2));
-	assert!(a.right <= b.right && a.left >= b.left);
+	if cfg!(kv_native) {
+		let a = Frame::new(1.0, 1.0).panned(Panning(p1));
+		let b = Frame::new(1.0, 1.0).panned(Panning(p2));
+		assert!(a.right <= b.right && a.left >= b.left, "native: gains monotone in the panning value");
+		return;
+	}
+	let _a = Frame::new(1.0, 1.0).panned(Panning(p1));
+	let (l1, r1) = unsafe { (KV_SQ_ARGS[0], KV_SQ_ARGS[1]) };
+	unsafe { KV_SQ_N = 0; }
+	let _b = Frame::new(1.0, 1.0).panned(Panning(p2));
+	let (l2, r2) = unsafe { (KV_SQ_ARGS[0], KV_SQ_ARGS[1]) };
+	assert!(r1 <= r2 && l1 >= l2, "panning right never lowers the right gain or raises the left gain");
+	assert!(l1 >= 0.0 && l1 <= 1.0 && r1 >= 0.0 && r1 <= 1.0);
 	kani::cover!(p1 < 0.0 && p2 > 0.0, "w:across-centre");
 }
 
